@@ -14,6 +14,11 @@ fn ids(seed: u64) -> Vec<u64> {
     for i in 0..8 {
         v.push(0xa5u64 << (8 * i)); // one non-zero byte at each position
     }
+    for b in 0..64 {
+        v.push(1u64 << b); // every single-bit id
+    }
+    v.sort();
+    v.dedup();
     v
 }
 fn ctxs(seed: u64) -> Vec<[u8; 8]> {
@@ -47,7 +52,7 @@ pub fn run() -> i32 {
     let seed = ctx.seed;
     let ids = ids(seed);
     let cs = ctxs(seed);
-    ctx.rule = "full product: subkey length every 0..=80 x 20 subkey ids (0,1,2,255,256,2^32-1,2^32,2^63,2^64-1, seeded, two byte-order patterns, one non-zero byte at each of the 8 positions) x 4 contexts x 5 master keys; lengths 16..=64 must equal libsodium byte for byte, all other lengths must return Err (no panic); within each master key all outputs for distinct (id, context, length) must be pairwise distinct and no shorter output may be a prefix of a longer one; the 32-byte column also through Kdf::derive_subkey / derive_subkey_to_vec / from_parts; every accepted cell is dumped for the independent Python BLAKE2b reference; non-trivial = cell executed in dryoc and libsodium".into();
+    ctx.rule = "full product: subkey length every 0..=80 x ~80 subkey ids (0,1,2,255,256,2^32-1,2^32,2^63,2^64-1, seeded, two byte-order patterns, one non-zero byte at each of the 8 positions, every single-bit id) x 4 contexts x 5 master keys; lengths 16..=64 must equal libsodium byte for byte, all other lengths must return Err (no panic); within each master key all outputs for distinct (id, context, length) must be pairwise distinct and no shorter output may be a prefix of a longer one; the 32-byte column also through Kdf::derive_subkey / derive_subkey_to_vec / from_parts; every accepted cell is dumped for the independent Python BLAKE2b reference; non-trivial = cell executed in dryoc and libsodium".into();
     ctx.assume("reference 1 libsodium crypto_kdf_derive_from_key; reference 2 Python hashlib.blake2b(digest_size=len, key, salt=id||0, person=ctx||0) over the dumped corpus");
     let corpus_path = format!("{}/logs/c12_corpus.jsonl", VERIF_ROOT);
     let _ = std::fs::create_dir_all(format!("{}/logs", VERIF_ROOT));
